@@ -125,6 +125,8 @@ def menagerieDecls : List (String × Methods × String) := [
   ("FV",        { folder := .value },   "struct{A:int;S:string}"),
   ("FP",        { folder := .pointer }, "struct{A:int}"),
   ("FS",        { folder := .value },   "int"),
+  ("FInts",     { folder := .value },   "[]int"),
+  ("FMap",      { folder := .value },   "map[string]int"),
   ("FOpen",     { folder := .value },   "struct{A:int}"),
   ("ZV",        { isZero := .value },   "struct{N:int}"),
   ("ZP",        { isZero := .pointer }, "struct{N:int}"),
@@ -616,6 +618,10 @@ def customEvents : String → GoVal → Option (List XEv)
           .keyRef (strBytes "fs"), .strRef s, .ev (.key (strBytes "fl")), .numArr .int [a, 7], .ev .objEnd]
   | "EmbF", .struct [fv, _] => customEvents "FV" fv
   | "FS", .int n => some [.ev (.str (strBytes "fs" ++ decBytes n))]
+  | "FInts", .nilSlice => some [.ev (.str (strBytes "fi0"))]
+  | "FInts", .slice xs => some [.ev (.str (strBytes "fi" ++ decBytes xs.length))]
+  | "FMap", .nilMap => some [.ev (.num .int 0)]
+  | "FMap", .map ms => some [.ev (.num .int ms.length)]
   | "FOpen", .struct [.int a] => some [.ev (.objStart 1 BT.any), .ev (.key (strBytes "oa")), .ev (.num .int a)]
   | "FP", .nilPtr => some [.ev .null]
   | "FP", .ptr (.struct [.int a]) =>
